@@ -2269,6 +2269,75 @@ def _inside_deferred(stmt, node):
     return False
 
 
+def rule8(ctx, rep):
+    """a generator is consumed once (added after seeded change C09-6: Construct._build_tree expanded the declared inputs
+    with util.as_vref - a generator - once per algorithm and handed the same object to the edge builder for every value;
+    the first value consumed it, every further value of the algorithm got no parent edge)"""
+    prog = ctx.prog
+    with rep.rule(
+        'R-C09-8',
+        'in the graph builder (dawgie.pl.dag) a one-shot iterator (call of a generator function such as util.as_vref, generator expression, map / filter / zip) held in a local is not consumed inside a loop that runs more than once per binding',
+        floor=1,
+        breaks='the second and later iterations see an exhausted iterator: values / algorithms after the first get no edges, parents or ancestry and whatever hangs below them vanishes from every tree',
+    ) as r:
+        def is_gen_call(e, f):
+            if isinstance(e, ast.GeneratorExp):
+                return True
+            if isinstance(e, ast.Call):
+                if isinstance(e.func, ast.Name) and e.func.id in ('map', 'filter', 'zip', 'iter', 'reversed', 'enumerate'):
+                    return True
+                q = prog.callee(e, f)
+                g = prog.funcs.get(q) if q else None
+                return g is not None and any(isinstance(x, (ast.Yield, ast.YieldFrom)) for x in g.own_nodes())
+            return False
+
+        checked = 0
+        for q, raw in sorted(prog.funcs.items()):
+            if raw.module.name != 'dawgie.pl.dag':
+                continue
+            f = prog.nfunc(q)
+            parent = {}
+            for n in ast.walk(f.node):
+                for ch in ast.iter_child_nodes(n):
+                    parent[id(ch)] = n
+
+            def loops_of(n):
+                out = []
+                x = parent.get(id(n))
+                prev = n
+                while x is not None and x is not f.node:
+                    if isinstance(x, (ast.For, ast.While)) and any(prev is b or any(prev is y for y in ast.walk(b)) for b in x.body + x.orelse):
+                        out.append(id(x))
+                    if isinstance(x, (ast.ListComp, ast.SetComp, ast.DictComp, ast.GeneratorExp)) and prev is not x.generators[0].iter:
+                        out.append(id(x))
+                    prev, x = x, parent.get(id(x))
+                return set(out)
+
+            for a in f.own_nodes():
+                if not (isinstance(a, ast.Assign) and len(a.targets) == 1 and isinstance(a.targets[0], ast.Name) and is_gen_call(a.value, f)):
+                    continue
+                name = a.targets[0].id
+                rebinds = [d for d in f.own_nodes() if isinstance(d, ast.Assign) and d is not a and any(isinstance(t, ast.Name) and t.id == name for t in d.targets)]
+                if rebinds:
+                    continue
+                checked += 1
+                r.instance()
+                rep.analysed(f)
+                base = loops_of(a)
+                uses = [u for u in f.own_nodes() if isinstance(u, ast.Name) and u.id == name and isinstance(u.ctx, ast.Load)]
+                again = [u for u in uses if loops_of(u) - base]
+                r.check(
+                    not again,
+                    f'{q}:{name}:one-shot-consumed-once',
+                    where(f, again[0] if again else a),
+                    f'{name} = {norm(a.value)[:40]} is consumed at the loop depth it was created',
+                    f'{q}: the one-shot iterator {name} = {norm(a.value)[:50]} is used inside a loop that iterates more often than the iterator is created: it is exhausted after the first pass',
+                )
+        if not checked:
+            r.instance()
+            r.ok('dawgie.pl.dag:no-held-one-shot-iterators', 'no local of the graph builder holds a generator across a loop')
+
+
 def check(ctx):
     rep = Report(
         PID,
@@ -2308,6 +2377,7 @@ def check(ctx):
     rule5(ctx, rep, fx)
     rule6(ctx, rep, fx)
     rule7(ctx, rep)
+    rule8(ctx, rep)
     return rep
 
 
@@ -2376,6 +2446,8 @@ _THREE_NEW = """def _sub(self, a, fn, dep):
         self._sub(a, fn, 'previous')"""
 
 VARIANTS = [
+    V('declared inputs expanded once, consumed twice', 'B', 'pl/dag.py', 'Construct._sub_task', 'for ref in dawgie.util.as_vref(a.previous()):', 'refs = dawgie.util.as_vref(a.previous())\n        for ref in [x for _k in (1, 2) for x in refs]:', 'R-C09-8'),
+    V('declared inputs expanded into a list first', 'N', 'pl/dag.py', 'Construct._sub_task', 'for ref in dawgie.util.as_vref(a.previous()):', 'refs = list(dawgie.util.as_vref(a.previous()))\n        for ref in [x for _k in (1,) for x in refs]:', None),
     V('base package depth captured at import', 'B', 'util/names.py', None, 'import logging', "import logging\n\n_AE_DEPTH = len(dawgie.context.ae_base_package.split('.'))", 'R-C09-7'),
     V('module constant unrelated to the configuration', 'N', 'util/names.py', None, 'import logging', "import logging\n\n_SEP = '.'", None),
     # ---- breaking
